@@ -247,7 +247,7 @@ def run_case(case):
             numpy.random.seed(0)
             f = make()
             try:
-                K.fit(f, kind, D[i])
+                do_fit(f, _layout(D[i].get("X"), lay), _layout(D[i].get("y"), lay))     # same memory layout as the history
                 fresh_cache[i] = ("ok", K.observe(f, kind, D[i]))
             except Exception as e:
                 fresh_cache[i] = ("raises", type(e).__name__)
